@@ -5,6 +5,7 @@ CONSTANTS
   IsBlob = TRUE
   SetterMarksDirty = TRUE
   ExplicitSha1Recomputes = TRUE
+  DirtyUntilSerialized = TRUE
   ChunkedResetsSha = FALSE
 INVARIANT IdIsHash
 INVARIANT SerCurrent
